@@ -63,8 +63,7 @@ Definition known_ttl (db : list quad) : bool := known_dd_ttl db.
 (* The stored dataset only shows a quoted triple through decode_any, i.e. as the string "<< s p o >>" of BARE
    components.  A term tree and its rendering; `qsafe` is the class of quoted triples whose bare rendering is
    unambiguous (the class checks/c14.py calls qt_safe): components are IRIs without whitespace characters, blank
-   nodes, nested safe quoted triples, or - in object position - literals that are single-spaced words free of
-   whitespace characters, double quotes, angle brackets and backslashes. *)
+   nodes, nested safe quoted triples, or - in object position - literals that are single-spaced words (see word_ok). *)
 Inductive qterm := QIri (s : str) | QBn (s : str) | QLit (ws : list str) | QQt (a b c : qterm).
 Fixpoint qrender (t : qterm) : str :=
   match t with
@@ -73,9 +72,20 @@ Fixpoint qrender (t : qterm) : str :=
   | QLit ws => join [cSP] ws
   | QQt a b c => sLTLT ++ [cSP] ++ qrender a ++ [cSP] ++ qrender b ++ [cSP] ++ qrender c ++ [cSP] ++ sGTGT
   end.
+(* a word: no separator of split_quoted_triple_content (space, TAB, LF, CR), no quote, angle bracket or backslash;
+   other white-space characters (U+00A0, U+3000, U+2028 ...) may occur INSIDE a word but not at its ends (every part
+   is trimmed) *)
+Definition sep_char (c : N) : bool := (c =? cSP) || (c =? cTAB) || (c =? cLF) || (c =? cCR).
 Definition word_char (c : N) : bool :=
-  negb (is_ws c) && negb ((c =? cLT) || (c =? cGT) || (c =? cDQ) || (c =? cBS)).
-Definition word_ok (w : str) : bool := negb (is_nil w) && forallb word_char w.
+  negb (sep_char c) && negb ((c =? cLT) || (c =? cGT) || (c =? cDQ) || (c =? cBS)).
+Definition hd_nows (w : str) : bool := match w with c :: _ => negb (is_ws c) | [] => false end.
+Fixpoint last_nows (w : str) : bool :=
+  match w with
+  | [] => false
+  | [d] => negb (is_ws d)
+  | _ :: r => last_nows r
+  end.
+Definition word_ok (w : str) : bool := hd_nows w && last_nows w && forallb word_char w.
 Definition no_ws (s : str) : bool := forallb (fun c => negb (is_ws c)) s.
 Definition q_is_subj (t : qterm) : bool := match t with QLit _ => false | _ => true end.
 Definition q_is_iri (t : qterm) : bool := match t with QIri _ => true | _ => false end.
